@@ -78,4 +78,50 @@ CHECKS["C08"] = (
     "min, F0 0.1-700 Hz, |RPHASE| < 1e12) and on timing.dat is decided by TLC at the property's tolerances; the text "
     "travels as bytes and TLC parses it itself.",
     TB + " astropy Time and UTC<->TAI (checked per event at 2^-49 day); leap-second days avoided.", "DESIGN.md §4 C08")
+CHECKS["C07"] = (
+    "TLA+ spec Phase.tla (exact-rational Phase algebra, dispatch table) model-checked as a register machine on the "
+    "1/8-cycle lattice; day_frac transcribed over a toy binary floating point (DayFrac.tla) and checked for every pair of "
+    "toy floats; TLC trace validation (Trace_Phase.tla) of events recorded from the real class with BigInt/Rat arithmetic",
+    "TLC decides the algebraic laws (add/sub and mul/div inverses, i*i = -1, divmod law, normal form, result kind) for all "
+    "lattice phases within the bounds and the day_frac algorithm for all pairs of 4/5-bit toy floats (this found the "
+    "|frac| > 1/2 defect). Thousands (quick) / 55k (thorough) real calls over every operand kind, both orders, real and "
+    "imaginary, counts up to 2^52, are recomputed exactly by TLC and must be Phase, normalised, correctly flagged and "
+    "within 2^-52 cycle; trig results must match CosSin(frac) at 1e-12 and be identical for equal fractions.",
+    TB + " In-place / out= ufunc forms of Phase are not exercised.", "DESIGN.md §4 C07")
+CHECKS["C15"] = (
+    "TLA+ spec PhaseText.tla (TLC's own decimal parser and 'rounded to the digits shown') with model-checked "
+    "transcriptions of from_string / do_format on a small grammar and lattice; TLC trace validation of real comparisons, "
+    "reductions and text I/O decided on exact values",
+    "Every string of the small grammar instance and every lattice value/precision is checked against the spec; 3.5k "
+    "(quick) / 53k (thorough) real events: comparison truth values, extremum indices, sorted permutations and ptp on arrays "
+    "with ties and one-ulp near-ties decided exactly; from_string within 2^-52 with the right flag; to_string/format equal "
+    "to the exactly rounded value (default within 1e-16); round trip.",
+    TB + " Text is compared as UTF-8 bytes parsed by TLC.", "DESIGN.md §4 C15")
+CHECKS["C13"] = (
+    "TLA+ spec Pol.tla: exact Gaussian-integer model of the basis change and Stokes algebra, model-checked over the whole "
+    "lattice; generated behaviours replayed on real signals; TLC validates recorded float samples in exact dyadic arithmetic "
+    "(Trace_Pol.tla)",
+    "Every clause (power kept, round trip, identity in own basis, Stokes formulas, basis independence, I^2=Q^2+U^2+V^2, "
+    "I>=0, I = sum of to_intensity, item access) is an invariant decided exhaustively for all Gaussian-integer samples with "
+    "|component| <= 2 (3 thorough), both bases and chains of up to 2 (3) conversions; three wrong variants (swapped L/R, "
+    "conjugation, sign of V) are rejected. Arbitrary float samples over 30 decades, both widths, NumPy and Dask are decided "
+    "per sample by TLC within a stated ulp budget.",
+    TB, "DESIGN.md §4 C13")
+CHECKS["C18"] = (
+    "TLA+ spec FastLen.tla: statement-level transcription of both 7-5-3-2 search loops model-checked for every N of a range "
+    "(termination as bounded steps + deadlock check, result = declarative nearest 7-smooth number); Smooth.tla enumerates the "
+    "7-smooth lattice below 2^62 as a reachable set; both replayed on the real functions; Trace_FastLen.tla for arbitrary N",
+    "Exhaustive for 0 <= N <= 20000 (200000 thorough) on the loops, and at and next to every 7-smooth number below 2^62 on "
+    "the real code (5000 sampled pairs quick, all 75710 pairs thorough); fast_len decided on all lengths <= 64 plus lazy "
+    "lengths up to 3e9 through the C01 ledger; random N < 2^62 validated by TLC with BigInt division.",
+    TB + " Beyond N = 200000 the loops themselves are not model-checked, only their input/output relation.", "DESIGN.md §4 C18")
+CHECKS["C20"] = (
+    "TLA+ specs FftFamily.tla / Stft.tla: the fourteen transforms and STFT/ISTFT defined from the kernel DFT and the band "
+    "model, definitions model-checked (NamesDistinct, inverse pairs, labels are true frequencies); TLC's expected arrays "
+    "replayed on pb.fft and contrib.stft/istft together with a direct comparison against scipy.fft/numpy.fft; "
+    "Trace_Stft.tla for large nperseg",
+    "Exhaustive over the stated shape/axis/n/s/norm/dtype matrix (6 shapes, 14 names, NumPy and Dask, lazy) and over nchan "
+    "<= 3, every alignment, nperseg <= 4 (6 thorough) and every bin-centred tone; larger sizes sampled or judged against the "
+    "reference implementation only.",
+    TB + " scipy.fft is the named reference.", "DESIGN.md §4 C20")
 NA = {}
